@@ -464,6 +464,19 @@ WHOLE = [
      '         "def f3(a, *args, **kwargs):\\n    return g(*args, **kwargs)\\n")\n'
      '_lc0.cache["<sim-exec-b0>"] = (len(_src0), None, _src0.splitlines(True), "<sim-exec-b0>")\n'
      'f, f2, f3 = ns1["f"], ns1["f2"], ns1["f3"]\n', ['f', 'f2', 'f3']),
+    ('descriptors_that_need_a_real_instance',
+     'class Desc0(object):\n'
+     '    def __init__(self, exc):\n        self.exc = exc\n'
+     '    def __get__(self, inst, owner):\n'
+     '        if inst is None:\n            return self\n'
+     '        if self.exc is AttributeError:\n            return inst.registry0[self]\n'
+     '        raise self.exc("needs a real instance")\n'
+     '    def __call__(self, a, *args, **kwargs):\n        return g(*args, **kwargs)\n'
+     'class Holder0(object):\n'
+     '    d_attr = Desc0(AttributeError)\n    d_key = Desc0(KeyError)\n    d_run = Desc0(RuntimeError)\n'
+     '    d_type = Desc0(TypeError)\n'
+     '    def __init__(self):\n        self.registry0 = {}\n',
+     ['Holder0.d_attr', 'Holder0.d_key', 'Holder0.d_run', 'Holder0.d_type', 'Holder0']),
     ('pep563_module', '#FUTURE#\nimport typing\n'
                       'def noparams() -> typing.List[int]:\n    return []\n'
                       'def fwd(*args, **kwargs) -> int:\n    return g(*args, **kwargs)\n'
@@ -487,9 +500,14 @@ WHOLE = [
     ('annotated_eager', 'import typing\n'
                         'def noparams() -> typing.List[int]:\n    return []\n'
                         'def fwd(*args, **kwargs) -> "int":\n    return g(*args, **kwargs)\n'
+                        'def ret_tuple(a) -> (int, str):\n    return a\n'
+                        'def ret_empty_tuple(a) -> ():\n    return a\n'
+                        'def ret_one_tuple(a, *args, **kwargs) -> (int,):\n    return g(*args, **kwargs)\n'
+                        'def ret_dict(a) -> {"k": 1}:\n    return a\n'
+                        'def ret_percent(a) -> "100%s":\n    return a\n'
                         'class Conn(object):\n    def close(self) -> None:\n        pass\n'
                         '    def fwd(self, *args, **kwargs) -> typing.Optional[int]:\n        return g(*args, **kwargs)\n',
-     ['noparams', 'fwd', 'Conn.close', 'Conn.fwd']),
+     ['noparams', 'fwd', 'Conn.close', 'Conn.fwd', 'ret_tuple', 'ret_empty_tuple', 'ret_one_tuple', 'ret_dict', 'ret_percent']),
     ('generic_class', 'class B[T]:\n    def m(self, a: T, *args, **kwargs) -> T:\n        return g(*args, **kwargs)\nb = B()\n', ['b.m', 'B.m', 'B']),
 ]
 
